@@ -33,8 +33,14 @@ def c14_check(op, x, sx, y, sy, n, ux, uy, left_kind, right_kind, ns):
             qa, qb = x * UX, y * UY
             plain = f(qa, qb)
             if op in ("add", "sub"):
-                yy = (y * UY).in_unit(UX).magnitude
-                syy = (sy * UY).in_unit(UX).magnitude if sy else 0
+                if UX.factors == UY.factors:
+                    # the same unit under two prefixes: the ratio comes from the prefix values themselves, not from the library's conversion
+                    pvv = lambda p: float(p.base) ** float(p.exponent) if p.base else 1.0
+                    k_ = pvv(UY.prefix) / pvv(UX.prefix)
+                    yy, syy = y * k_, sy * k_
+                else:
+                    yy = (y * UY).in_unit(UX).magnitude
+                    syy = (sy * UY).in_unit(UX).magnitude if sy else 0
                 want_m = x + yy if op == "add" else x - yy
                 want_s = math.sqrt(sx ** 2 + syy ** 2)
             elif op == "mul":
@@ -69,7 +75,8 @@ def run(tier, seed):
     ns = namespace()
     rng = seed_rng(seed, "C14")
     n = 600 if tier == "quick" else 40000
-    units = [("Meter", "Meter"), ("Meter", "Foot"), ("Second", "Minute"), ("Meter", "(Kilo*Meter)"), ("Joule", "Calorie"), ("Meter", "Second")]
+    units = [("Meter", "Meter"), ("Meter", "Foot"), ("Second", "Minute"), ("Meter", "(Kilo*Meter)"), ("Joule", "Calorie"), ("Meter", "Second"),
+             ("(Mebi*Byte)", "(Kibi*Byte)"), ("Byte", "(Kibi*Bit)"), ("(Kilo*Bit)", "(Kibi*Bit)")]
     failures, samples, evals, distinct = [], [], 0, set()
     xs = [0, 2, -3, 0.5, 7.25, -0.125]
     while evals < n and len(failures) < 6:
